@@ -17,6 +17,79 @@ CHECKS = {
         "monotonicity is asserted only for gaps above 64 eps x mass ratio.",
         "DESIGN.md section 6 C15",
     ),
+
+    "C14": (
+        "Hypothesis property test: algebraic laws (linearity, identity, path independence, inverse) + absolute unit factors + rejection oracle",
+        "Generated-input search: all 27 ordered unit triples (hence all 9 pairs) enumerated inside the strategy x generated values (0, 1e-12..1e6) "
+        "and components (12 built-in, random molar mass); oracle = stated absolute factors, homogeneity/additivity, A->B->C = A->C, A->B->A = A, "
+        "raising for a missing component / unknown unit, non-negative clamp. Exploration: holds on all cases generated.",
+        "relative tolerance 1e-14 (4e-14 for composed conversions); 'raises' accepts any exception type.",
+        "DESIGN.md section 6 C14",
+    ),
+    "C13": (
+        "Hypothesis property test: Clausius-Clapeyron by 5-point numerical differentiation; cooling heat vs Gauss quadrature and algebraic laws",
+        "Generated-input search over Antoine/Frost constants (built-in + wide random ranges), T 200..500 K, arbitrary cubic Cp of either sign "
+        "and temperature triples; oracle = R T^2 dlnPsat/dT from the package's own vapour pressure (stencil, h=0.05 K), 2-point Gauss-Legendre "
+        "quadrature of the package's own specific heat (exact for cubics), additivity, antisymmetry, Q(a,a)=0, dQ/dt0 = Cp. Exploration.",
+        "numerical derivative tolerance 1e-6 relative (measured worst 1.1e-9); quadrature tolerance 1e-12 of the sum of absolute terms.",
+        "DESIGN.md section 6 C13",
+    ),
+    "C10": (
+        "Hypothesis property test with harness-side evaluation counter: bounded-termination oracle + cycle/stagnation classifier at the cap",
+        "Generated-input search over the full solver domain weighted to UNIQUAC + permeate temperature (the region with attracting 2-cycles), "
+        "ideal process/curve models of 1..12 steps, and the corpus of inputs that never terminated on the pinned tree; oracle = every flux "
+        "calculation performs at most 50 000 driving-force evaluations or raises; at the cap the iterate trace is classified (cycle/stagnation "
+        "= VIOLATION, still contracting = inconclusive). Bounded form of termination: exploration, not proof.",
+        "evaluations counted by wrapping the bound method on the Pervaporation instance and the module-level get_partial_pressures name; an "
+        "infinite loop that makes no counted call only trips the runner watchdog (exit 2).",
+        "DESIGN.md section 6 C10",
+    ),
+    "C02": (
+        "Hypothesis property test: solution-diffusion law recomputed at the traced last iterate, iterate-chain and stopping-rule invariants, "
+        "black-box fixed-point residual, exact vacuum / fixed-pressure identities, permeance-scaling metamorphic twin",
+        "Generated-input search over mixtures x {NRTL, UNIQUAC} x 3 permeate modes x permeances x feed state x precision; oracle: returned "
+        "fluxes = permeance x (feed - permeate partial pressure) recomputed with pyvaporation.mixtures at the last iterate (rel 1e-12), every "
+        "iterate is the composition of the previous evaluation's fluxes, |y_k - y_(k-1)| < precision, self-consistency within precision when "
+        "locally contractive, J = P*pf exactly for vacuum / p=0, J1/P1+J2/P2 = pf1+pf2-p, permeances x k -> fluxes x k. Exploration.",
+        "partial pressures come from the package's own mixture module (checked separately by C04); calls that raise are discards; contractivity "
+        "is estimated by a finite-difference Lipschitz constant < 0.9 plus non-increasing steps along the trace.",
+        "DESIGN.md section 6 C02",
+    ),
+    "C04": (
+        "Hypothesis property test: Gibbs-Duhem residual by 5-point stencil, pure-component limits, Raoult reduction, p = x*gamma*Psat, "
+        "mole/mass input invariance; known-finding predicate = exact reproduction of the slipped UNIQUAC formula",
+        "Generated-input search over 8 built-in + synthetic mixtures x {NRTL one/two alphas with/without a12,a21; UNIQUAC} x mole fraction in (0,1) "
+        "incl. 1e-6 from the ends x T 273..400 K; oracle as in the technique field, Gibbs-Duhem asserted only where the stencil is converged "
+        "(h vs h/2) with a rounding-noise allowance. The UNIQUAC gamma_2 slip (D1) is a recorded known finding; any other deviation fails. Exploration.",
+        "reference UNIQUAC (published and slipped variants) written in the harness from the Anderson-Prausnitz equation with tau as the package defines it.",
+        "DESIGN.md section 6 C04",
+    ),
+    "C12": (
+        "Hypothesis property test against a reference Arrhenius model of the membrane (nearest experiment, stated or regressed Ea)",
+        "Generated-input search over components, 1..6 experiments per component in any order and unit, stated/unstated/mixed activation energies, "
+        "exact-Arrhenius and noisy families, query temperatures 260..420 K; oracle = harness reference model (two-pass least squares), Ea recovery and "
+        "nearest-experiment independence on exact lines, molar = mass selectivity x M2/M1, pure-component flux = P x (Psat - permeate pressure). Exploration.",
+        "ties between nearest experiments (< 1e-6 K) are skipped; non-exact experiments are an Arrhenius line with bounded noise so regressed Ea stays in the quantified range.",
+        "DESIGN.md section 6 C12",
+    ),
+    "C08": (
+        "Hypothesis differential test across entry points: standalone flux calculation vs helpers, one-point curve, step 0 and every step of process models",
+        "Generated-input search over membrane x mixture x {NRTL, UNIQUAC} x feed state (molar/mass) x permeate mode x precision x ideal processes of "
+        "1..6 steps; oracle: all entry points reproduce the standalone flux calculation (rel 1e-12), y = J1/(J1+J2), separation factor = "
+        "(y1/y2)/(x1/x2), PSI = total flux x (sf-1), every process step equals a standalone calculation at its reported state. Non-trivial cases "
+        "are those where NRTL and UNIQUAC answers differ, so a silent fall-back is visible. Exploration.",
+        "reference call uses keyword arguments; cases whose reference call raises are discards.",
+        "DESIGN.md section 6 C08",
+    ),
+    "C09": (
+        "Hypothesis round-trip test: solver -> DiffusionCurve inversion with a computed tolerance; reference inversion; permeance -> flux -> permeance; unit normalisation",
+        "Generated-input search over mixtures x 3 permeate modes x permeances (kg/SI/GPU) x 1..4 compositions (molar/mass) x T x precision 1e-8..1e-5; "
+        "oracle: curve built from solver fluxes reports the solver's permeances within the exact effect of the stopping tolerance, equals the harness "
+        "inversion, curve from permeances gives P x pf and re-inverts to P (1e-12), permeances always exposed in kg/(m2 h kPa). The permeate-pressure "
+        "basis mismatch (D7) is a recorded known finding with a narrow predicate. Exploration.",
+        "NRTL only (a DiffusionCurve has no activity-model field); last solver iterate observed through the evaluation trace.",
+        "DESIGN.md section 6 C09",
+    ),
 }
 
 NOT_YET = "check not built yet in this round (planned, see DESIGN.md section 6)"
